@@ -398,6 +398,16 @@ def run(ctx):
             else:
                 r3.ok("%s:raw#%s/%s" % (short, p.variant, const_val(strip_refs(p.rankval)) if p.rankval is not None and strip_refs(p.rankval).k == "const" else "?"),
                       "raw text pushed from %r" % (pe,))
+    # one split value per builder: a private stage of a list builder that splits the text again works with parts the quoter (and the
+    # conversion) never saw — its candidates are wrapped in straight / unconverted punctuation while the word candidates are curled
+    for fk in sorted(callers):
+        root_s, extra_splits = builders.second_splits(prog, fk, sp, ctors)
+        short_s = root_s.split("::")[-1]
+        if extra_splits:
+            r2.violation("%s:single-split" % short_s, "%s splits the text again and builds candidates from that second split value, which never passes the quoter: "
+                         "those candidates keep straight quotes while the others are curled" % extra_splits[0].split("::")[-1], common.fn_line(prog, extra_splits[0]))
+        else:
+            r2.ok("%s:single-split" % short_s, "no stage of the builder builds candidates from a second split of the text")
     # ---------------- R4 the curled quotes stay punctuation for the splitter (same preselection with the option on and off)
     r4 = chk.rule("C17.R4", "the quotes the quoter produces are punctuation for the splitter",
                   "same preselection with the option on and off (a committed curled candidate must be stripped like a straight one)")
@@ -411,7 +421,7 @@ def run(ctx):
             r4.violation("U+%04X" % ord(ch), "the quoter emits U+%04X but the splitter does not treat it as punctuation: with the option on a learned choice for a "
                          "quoted word is stored with the quote and the preselection differs from the option-off run" % ord(ch), common.fn_line(prog, sp))
     r4.floor(4, "four curly quotes")
-    r2.floor(8, "two builders × (guard, reached, result, order)")
+    r2.floor(10, "two builders × (guard, reached, result, order, single-split)")
     r3.floor(3, "emoticon literal, phonetic English, fixed English")
     r5 = chk.rule("C17.R5", "the smart-quote option is a plain stored value", "turning smart quotes on changes a suggestion in exactly one way — 'on' is the value the front end set")
     common.plain_options(r5, prog, ["get_smart_quote"])
